@@ -1,4 +1,4 @@
-Require Import AT.Model.Base AT.Model.DictIO AT.Spec.DictSpec AT.Corr.Common.
+Require Import AT.Model.Base AT.Model.DictIO AT.Spec.DictSpec AT.Proofs.DictProofs AT.Proofs.DictIters AT.Corr.Common.
 Local Open Scope Z_scope.
 
 Inductive aiter := AIdentity | ASort | ADropK0.
@@ -20,8 +20,6 @@ Fixpoint canon_d (d : dtree) : dtree :=
   match d with
   | D data cs => D (sort_items data) (match cs with Some l => Some (map canon_d l) | None => None end)
   end.
-Fixpoint to_dtree (t : itree) : dtree :=
-  match t with I a cs => D a (match cs with [] => None | _ => Some (map to_dtree cs) end) end.
 (** the attributes and shape an imported dictionary must produce *)
 Fixpoint shape_of (d : dtree) : itree :=
   match d with D data cs => I data (match cs with Some l => map shape_of l | None => [] end) end.
@@ -57,6 +55,9 @@ Definition spec10 (c : case10) : bool :=
   | CaseT t a ci ml jml n vj (Some (d, t2, d3)) py =>
       let eml := json_effective_maxlevel ml jml in
       py &&
+      dtree_eqb d (strip d) &&                                      (* 'children' only when non-empty *)
+      (let e := to_dtree (exported (run_aiter a) (run_citer ci) eml (S (iheight t)) 1 t) in
+       if vj then dtree_eqb (canon_d d) (canon_d e) else dtree_eqb d e) &&   (* iterators honoured at every level *)
       match a, ci with
       | AIdentity, CListK =>
           (if vj then dtree_eqb (canon_d d) (canon_d (to_dtree (cut eml 1 t))) else dtree_eqb d (to_dtree (cut eml 1 t)))                       (* export: structural, children iff non-empty *)
